@@ -13,6 +13,7 @@ mod c09;
 mod c12;
 mod c13;
 mod c16;
+mod c17;
 mod c20;
 mod disk;
 mod framework;
@@ -33,6 +34,9 @@ fn usage() -> ! {
 }
 
 fn dispatch<P: Property>(p: &P, opts: &Opts, replay_file: Option<PathBuf>) -> i32 {
+    if let Ok(f) = std::env::var("PKGSIM_INTERNAL_EXEC") {
+        return child_exec_main(p, std::path::Path::new(&f));
+    }
     if let Some(f) = replay_file {
         return match replay(p, &f) {
             Ok(true) => 1,
@@ -111,6 +115,10 @@ fn main() {
                 runs_override = Some(need(i).parse().unwrap_or_else(|_| usage()));
                 i += 2;
             }
+            "--exec-scenario" => {
+                std::env::set_var("PKGSIM_INTERNAL_EXEC", need(i));
+                i += 2;
+            }
             "--replay" => {
                 replay_file = Some(PathBuf::from(need(i)));
                 i += 2;
@@ -152,6 +160,7 @@ fn main() {
         "C12" => dispatch(&c12::C12, &opts, replay_file),
         "C13" => dispatch(&c13::C13, &opts, replay_file),
         "C16" => dispatch(&c16::C16, &opts, replay_file),
+        "C17" => dispatch(&c17::C17, &opts, replay_file),
         "C20" => dispatch(&c20::C20, &opts, replay_file),
         _ => {
             eprintln!("pkgsim: unknown or unclaimed property {}", prop);
